@@ -447,6 +447,16 @@ REJECT = [
     ("pos_try_unwrap_last_variant_bad", "position", '#[derive(derive_more::TryUnwrap)] pub enum E { A(u8), #[try_unwrap(bogus)] B(u16) }'),
     ("pos_unwrap_ignored_variant_bad_field", "position", '#[derive(derive_more::Unwrap)] pub enum E { #[unwrap(ignore)] A(#[unwrap(bogus)] u8), B(u16) }'),
     ("pos_unwrap_last_variant_bad", "position", '#[derive(derive_more::Unwrap)] pub enum E { A(u8), #[unwrap(bogus)] B(u16) }'),
+    # every predicate of every bound(..) attribute of an item is part of the impl, whether they come in one list or in several attributes and whether
+    # or not two of them bound the same type (seed C17-bounds-deduped-by-type-across-attrs): the impl must not exist for a type meeting only the first
+    ("absent_display_impl_second_bound_one_list", "absent-impl", "pub trait A1 {} pub trait B1 {} pub struct OnlyA; impl A1 for OnlyA {} impl core::fmt::Display for OnlyA { fn fmt(&self, f: &mut core::fmt::Formatter<'_>) -> core::fmt::Result { f.write_str(\"a\") } } impl core::fmt::Debug for OnlyA { fn fmt(&self, f: &mut core::fmt::Formatter<'_>) -> core::fmt::Result { f.write_str(\"a\") } } #[derive(derive_more::Display)] #[display(bound(T: A1, T: B1))] #[display(\"{_0}\")] pub struct S<T>(pub T); pub fn f(s: &S<OnlyA>) -> &dyn core::fmt::Display { s }"),
+    ("absent_display_impl_second_bound_two_attrs", "absent-impl", "pub trait A1 {} pub trait B1 {} pub struct OnlyA; impl A1 for OnlyA {} impl core::fmt::Display for OnlyA { fn fmt(&self, f: &mut core::fmt::Formatter<'_>) -> core::fmt::Result { f.write_str(\"a\") } } impl core::fmt::Debug for OnlyA { fn fmt(&self, f: &mut core::fmt::Formatter<'_>) -> core::fmt::Result { f.write_str(\"a\") } } #[derive(derive_more::Display)] #[display(bound(T: A1))] #[display(bound(T: B1))] #[display(\"{_0}\")] pub struct S<T>(pub T); pub fn f(s: &S<OnlyA>) -> &dyn core::fmt::Display { s }"),
+    ("absent_display_impl_second_bound_two_attrs_rev", "absent-impl", "pub trait A1 {} pub trait B1 {} pub struct OnlyA; impl A1 for OnlyA {} impl core::fmt::Display for OnlyA { fn fmt(&self, f: &mut core::fmt::Formatter<'_>) -> core::fmt::Result { f.write_str(\"a\") } } impl core::fmt::Debug for OnlyA { fn fmt(&self, f: &mut core::fmt::Formatter<'_>) -> core::fmt::Result { f.write_str(\"a\") } } #[derive(derive_more::Display)] #[display(bound(T: B1))] #[display(bound(T: A1))] #[display(\"{_0}\")] pub struct S<T>(pub T); pub fn f(s: &S<OnlyA>) -> &dyn core::fmt::Display { s }"),
+    ("absent_display_impl_second_bound_around_fmt", "absent-impl", "pub trait A1 {} pub trait B1 {} pub struct OnlyA; impl A1 for OnlyA {} impl core::fmt::Display for OnlyA { fn fmt(&self, f: &mut core::fmt::Formatter<'_>) -> core::fmt::Result { f.write_str(\"a\") } } impl core::fmt::Debug for OnlyA { fn fmt(&self, f: &mut core::fmt::Formatter<'_>) -> core::fmt::Result { f.write_str(\"a\") } } #[derive(derive_more::Display)] #[display(bound(T: A1))] #[display(\"{_0}\")] #[display(bounds(T: B1))] pub struct S<T>(pub T); pub fn f(s: &S<OnlyA>) -> &dyn core::fmt::Display { s }"),
+    ("absent_debug_impl_second_bound_one_list", "absent-impl", "pub trait A1 {} pub trait B1 {} pub struct OnlyA; impl A1 for OnlyA {} impl core::fmt::Display for OnlyA { fn fmt(&self, f: &mut core::fmt::Formatter<'_>) -> core::fmt::Result { f.write_str(\"a\") } } impl core::fmt::Debug for OnlyA { fn fmt(&self, f: &mut core::fmt::Formatter<'_>) -> core::fmt::Result { f.write_str(\"a\") } } #[derive(derive_more::Debug)] #[debug(bound(T: A1, T: B1))] #[debug(\"{_0:?}\")] pub struct S<T>(pub T); pub fn f(s: &S<OnlyA>) -> &dyn core::fmt::Debug { s }"),
+    ("absent_debug_impl_second_bound_two_attrs", "absent-impl", "pub trait A1 {} pub trait B1 {} pub struct OnlyA; impl A1 for OnlyA {} impl core::fmt::Display for OnlyA { fn fmt(&self, f: &mut core::fmt::Formatter<'_>) -> core::fmt::Result { f.write_str(\"a\") } } impl core::fmt::Debug for OnlyA { fn fmt(&self, f: &mut core::fmt::Formatter<'_>) -> core::fmt::Result { f.write_str(\"a\") } } #[derive(derive_more::Debug)] #[debug(bound(T: A1))] #[debug(bound(T: B1))] #[debug(\"{_0:?}\")] pub struct S<T>(pub T); pub fn f(s: &S<OnlyA>) -> &dyn core::fmt::Debug { s }"),
+    ("absent_debug_impl_second_bound_two_attrs_rev", "absent-impl", "pub trait A1 {} pub trait B1 {} pub struct OnlyA; impl A1 for OnlyA {} impl core::fmt::Display for OnlyA { fn fmt(&self, f: &mut core::fmt::Formatter<'_>) -> core::fmt::Result { f.write_str(\"a\") } } impl core::fmt::Debug for OnlyA { fn fmt(&self, f: &mut core::fmt::Formatter<'_>) -> core::fmt::Result { f.write_str(\"a\") } } #[derive(derive_more::Debug)] #[debug(bound(T: B1))] #[debug(bound(T: A1))] #[debug(\"{_0:?}\")] pub struct S<T>(pub T); pub fn f(s: &S<OnlyA>) -> &dyn core::fmt::Debug { s }"),
+    ("absent_debug_impl_second_bound_around_fmt", "absent-impl", "pub trait A1 {} pub trait B1 {} pub struct OnlyA; impl A1 for OnlyA {} impl core::fmt::Display for OnlyA { fn fmt(&self, f: &mut core::fmt::Formatter<'_>) -> core::fmt::Result { f.write_str(\"a\") } } impl core::fmt::Debug for OnlyA { fn fmt(&self, f: &mut core::fmt::Formatter<'_>) -> core::fmt::Result { f.write_str(\"a\") } } #[derive(derive_more::Debug)] #[debug(bound(T: A1))] #[debug(\"{_0:?}\")] #[debug(bounds(T: B1))] pub struct S<T>(pub T); pub fn f(s: &S<OnlyA>) -> &dyn core::fmt::Debug { s }"),
     # an attribute of the enum itself where the derive only reads its variants' (open finding: silently ignored)
     ("kind_from_forward_enum", "item-kind", "#[derive(derive_more::From)] #[from(forward)] pub enum E { A(u8), B(u16) }"),
     ("kind_from_types_enum", "item-kind", "#[derive(derive_more::From)] #[from(u8)] pub enum E { A(u16), B(u32) }"),
